@@ -248,6 +248,14 @@ class Selection(Contract):
         # interface conformance of the module in effect (real module, loaded through the interpreter)
         missing = [f for f in INTERFACE if not callable(getattr(backend, f, None))]
         d["V.interface_complete[%s]" % name] = not missing
+        # a DERIVED backend (the Groth16 variant of libsnark, the other fields of zkinterface) is its base module with one
+        # switch set: whatever entry point the runtime may look up on the base (process_snark, keygen_only, ...) it finds
+        # on the derived module too
+        base_path = {"libsnarkgg": PATHS[0], "zkifbellman": "pysnark.zkinterface.backend", "zkifbulletproofs": "pysnark.zkinterface.backend"}.get(name)
+        if base_path is not None and dict.__contains__(w.modules, base_path):
+            base_mod = dict.__getitem__(w.modules, base_path)
+            lacking = sorted(n for n, v in list(vars(base_mod).items()) if not n.startswith("_") and callable(v) and not hasattr(backend, n))
+            d["V.derived_backend_offers_all_of_its_base[%s]" % name] = not lacking
         d["F.backend_not_none"] = backend is not None
         d["canary.V.env_names_backend"] = And(*[Implies(And(no_pre, ENV == i), idx == (i + 1) % 8) for i in range(len(NAMES))])
         return d
